@@ -204,8 +204,6 @@ def judge(chk, traces, kind, conform=True):
             if err.startswith('X.'):
                 raise Machinery('trace of case %s is malformed: %s' % (case, err))
             cls = classify(case, err, info)
-            if cls == CWDDIR:
-                found.add('DevDirTestInCwd')
             if cls == HOSTILE:
                 found.add('DevCopyUnquoted')
                 if err == 'C11.Placed':         # cp failed and nobody noticed
